@@ -270,6 +270,13 @@ class StdioClient:
                     if isinstance(message, str):
                         # Raw string message (already JSON)
                         json_str = message
+                        if "\n" in json_str or "\r" in json_str:
+                            # NDJSON framing: one message is exactly one line.  A
+                            # pre-serialised text that contains line breaks (pretty
+                            # printed, trailing newline) is re-serialised compactly;
+                            # if it is not valid JSON it is dropped like any other
+                            # message that cannot be serialised.
+                            json_str = json.dumps(json.loads(json_str))
                         msg_method = None
                         msg_id = None
                     elif isinstance(message, dict):
